@@ -197,6 +197,28 @@ theorem sendHeartbeat_inactive (force : Bool) (h : HSt) (hm : h.st.claimMode = f
     sendHeartbeat force h = (h, []) := by
   unfold sendHeartbeat; simp [hm]
 
+/-- `SendHeartbeat(int iDev)`: heartbeat state untouched; the message (if any) is a forced one; silent on inactive nodes -/
+theorem sendHeartbeatOne_spec (h : HSt) (i : Nat) :
+    (sendHeartbeatOne h i).1.hb = h.hb ∧ (sendHeartbeatOne h i).1.syncOffset = h.syncOffset ∧
+    St.Same h.st (sendHeartbeatOne h i).1.st ∧
+    (∀ m, (sendHeartbeatOne h i).2 = some m → ∃ p, m = setN2kPGN126993 p 0xff) ∧
+    (h.st.claimMode = false → sendHeartbeatOne h i = (h, none)) := by
+  unfold sendHeartbeatOne
+  by_cases hm : ¬ h.st.claimMode = true
+  · simp only [if_pos hm]
+    exact ⟨by triv, by triv, St.Same.rfl' _, fun m hmm => by simp at hmm, fun _ => by triv⟩
+  · simp only [if_neg hm]
+    have hm' : h.st.claimMode ≠ false := by simpa using hm
+    cases hd : h.st.devs[i]? with
+    | none => exact ⟨rfl, rfl, St.Same.rfl' _, fun m hmm => by simp at hmm, fun hf => absurd hf hm'⟩
+    | some d =>
+      cases hb : h.hb[i]? with
+      | none => exact ⟨rfl, rfl, St.Same.rfl' _, fun m hmm => by simp at hmm, fun hf => absurd hf hm'⟩
+      | some b =>
+        refine ⟨rfl, rfl, sendMsg_same _ _ _, fun m hmm => ⟨b.sched.period, ?_⟩, fun hf => absurd hf hm'⟩
+        simp only [Option.some.injEq] at hmm
+        exact hmm.symm
+
 /-! ## operations and runs -/
 
 /-- a heartbeat handed to `SendMsg`: device, whether it was forced (`SendHeartbeat(true)` / `SendHeartbeat(iDev)`), message -/
@@ -427,20 +449,18 @@ theorem Op.apply_seq (op : Op) (h : HSt) (d c : Nat) (hc : seqOf h d = some c) (
     simp only [Op.apply]
     by_cases h3 : h.st.openState = 3
     · simp only [if_pos h3]
-      have hhb : (sendHeartbeatOne h i).1.hb = h.hb := by
-        unfold sendHeartbeatOne; cases h.st.devs[i]? <;> cases h.hb[i]? <;> rfl
+      obtain ⟨hhb, _, _, hmsg, _⟩ := sendHeartbeatOne_spec h i
       refine ⟨c, by unfold seqOf at *; rw [hhb]; exact hc, hlt, ?_, ?_, ?_⟩
       · cases (sendHeartbeatOne h i).2 <;> simp [seqsOf, countFrom]
       · cases (sendHeartbeatOne h i).2 <;> simp [seqsOf] <;> omega
       · intro e he _
-        have : ∀ m, (sendHeartbeatOne h i).2 = some m → seqByte m = 0xff := by
-          intro m hm
-          unfold sendHeartbeatOne at hm
-          cases hd : h.st.devs[i]? <;> cases hb : h.hb[i]? <;> simp [hd, hb] at hm
-          rw [← hm, (setN2kPGN126993_layout _ _).2.2.2.2.1]
         cases hm : (sendHeartbeatOne h i).2 with
         | none => simp [hm] at he
-        | some m => simp [hm] at he; rw [he]; exact this m hm
+        | some m =>
+          simp [hm] at he
+          obtain ⟨p, hp⟩ := hmsg m hm
+          rw [he]; simp only
+          rw [hp, (setN2kPGN126993_layout _ _).2.2.2.2.1]
     · simp only [if_neg h3]; exact ⟨c, hc, hlt, SeqRel.nil hlt⟩
   | set iv off dev => exact ⟨c, by simp only [Op.apply]; rw [set_seqOf]; exact hc, hlt, SeqRel.nil hlt⟩
   | claim i => exact ⟨c, hc, hlt, SeqRel.nil hlt⟩
@@ -603,18 +623,12 @@ theorem Op.apply_inv (op : Op) (h : HSt) (hi : NodeInv h) (ha : op.Allowed h) : 
     simp only [Op.apply]
     by_cases h3 : h.st.openState = 3
     · simp only [if_pos h3]
-      unfold sendHeartbeatOne
-      cases hd : h.st.devs[i]? with
-      | none => exact hi
-      | some d =>
-        cases hb : h.hb[i]? with
-        | none => exact hi
-        | some b =>
-          have hsame := sendMsg_same h.st (setN2kPGN126993 b.sched.period 0xff) (some i)
-          refine ⟨fun _ b' hb' => ?_, fun hno => ?_⟩
-          · have := hi.1 h3 b' hb'
-            simp only [hsame.1]; exact this
-          · simp only [hsame.2.2.2.1] at hno; exact absurd h3 hno
+      obtain ⟨hhb, hso, hsame, _, _⟩ := sendHeartbeatOne_spec h i
+      refine ⟨fun _ b' hb' => ?_, fun hno => ?_⟩
+      · rw [hhb] at hb'
+        have := hi.1 h3 b' hb'
+        rw [hso, hsame.1]; exact this
+      · rw [hsame.2.2.2.1] at hno; exact absurd h3 hno
     · simp only [if_neg h3]; exact hi
   | set iv off dev =>
     have h3 : h.st.openState = 3 := ha
